@@ -63,6 +63,14 @@ type meta struct {
 
 func (m meta) id() seq.ID { return seq.ID{MID: seq.MID(m.mid), RID: seq.RID(m.rid)} }
 
+// idLess is the specification's order on ids (MID, then RID) - the harness never borrows the comparator under test
+func idLess(a, b seq.ID) bool {
+	if a.MID != b.MID {
+		return a.MID < b.MID
+	}
+	return a.RID < b.RID
+}
+
 func fmtID(id seq.ID) string { return fmt.Sprintf("%d.%d", uint64(id.MID), uint64(id.RID)) }
 
 func fmtIDs(ids []seq.ID) string {
@@ -670,7 +678,7 @@ func setMultipleCases(ch *vh.Channel, r *vh.RNG, n int) {
 				all = append(all, id)
 			}
 		}
-		sort.Slice(all, func(a, b int) bool { return seq.Less(all[a], all[b]) })
+		sort.Slice(all, func(a, b int) bool { return idLess(all[a], all[b]) })
 		var ents []string
 		for _, id := range all {
 			if p := dp.Get(id); p != seq.DocPosNotFound {
@@ -1323,15 +1331,23 @@ type sysCase struct {
 	// 200 bulks), every fat-th document carries fatToks extra tokens, checks only after S / R / every 60th op / the end
 	long bool
 	fat  int
+	// real-time ids (`sysr`): MIDs around the wall clock of the run - pairs of documents share a millisecond (several
+	// RIDs per MID), every third pair is a LATE delivery 20..120 minutes older than the fraction that receives it (such
+	// a fraction gets a time-occupancy map when sealed); ids found by search are also fetched WITH the search's hints
+	rt bool
 }
 
 const fatToks = 400
 
-var sysFatEvery = 0 // set by runSys for the case at hand
+var sysFatEvery = 0  // set by runSys for the case at hand
+var sysRTBase uint64 // != 0: real-time ids relative to this wall-clock millisecond (set by runSys)
 
 func (c sysCase) String() string {
 	if c.long {
 		return fmt.Sprintf("sysl docs=%d fat=%d ops=%s", c.k, c.fat, strings.Join(c.ops, ";"))
+	}
+	if c.rt {
+		return fmt.Sprintf("sysr docs=%d ops=%s", c.k, strings.Join(c.ops, ";"))
 	}
 	return fmt.Sprintf("sys docs=%d ops=%s", c.k, strings.Join(c.ops, ";"))
 }
@@ -1342,6 +1358,14 @@ func parseSys(line string) (sysCase, error) {
 	if strings.HasPrefix(line, "sysl ") {
 		c.long = true
 		if _, err := fmt.Sscanf(line, "sysl docs=%d fat=%d ops=%s", &c.k, &c.fat, &ops); err != nil {
+			return c, err
+		}
+		c.ops = strings.Split(ops, ";")
+		return c, nil
+	}
+	if strings.HasPrefix(line, "sysr ") {
+		c.rt = true
+		if _, err := fmt.Sscanf(line, "sysr docs=%d ops=%s", &c.k, &ops); err != nil {
 			return c, err
 		}
 		c.ops = strings.Split(ops, ";")
@@ -1380,6 +1404,17 @@ func joinIdx(idx []int) string {
 // document i of the system oracle's universe
 func sysDoc(i int) meta {
 	m := meta{mid: uint64(1000 + 3*i), rid: uint64(500 + i), doc: i + 1, size: uint32(minPayload + 4 + 5*(i%4))}
+	if sysRTBase != 0 {
+		g := uint64(i / 2) // documents 2g and 2g+1 share their millisecond
+		switch g % 3 {
+		case 0:
+			m.mid = sysRTBase - 5*g
+		case 1: // late delivery: 20..119 minutes old
+			m.mid = sysRTBase - (20+(g*37)%100)*60_000 - g
+		default:
+			m.mid = sysRTBase - 1 - 3*g
+		}
+	}
 	m.toks = []tok{{[]byte("_all_"), nil}, {[]byte("service"), []byte(fmt.Sprintf("s%d", i%3))},
 		{[]byte("level"), []byte(fmt.Sprintf("%d", i%2))}, {[]byte("k8s_pod"), []byte(fmt.Sprintf("p%d", i))}}
 	if sysFatEvery > 0 && i%sysFatEvery == sysFatEvery-1 {
@@ -1512,9 +1547,9 @@ func checkStore(s *sysStore, k int, have map[int]bool, crossFraction bool, stage
 			}
 			sort.Slice(exp, func(a, b int) bool {
 				if asc {
-					return seq.Less(exp[a], exp[b])
+					return idLess(exp[a], exp[b])
 				}
-				return seq.Less(exp[b], exp[a])
+				return idLess(exp[b], exp[a])
 			})
 			got := qpr.IDs.IDs()
 			if fmtIDs(got) != fmtIDs(exp) {
@@ -1582,9 +1617,9 @@ func checkStore(s *sysStore, k int, have map[int]bool, crossFraction bool, stage
 			}
 			sort.Slice(all, func(a, b int) bool {
 				if asc {
-					return seq.Less(all[a], all[b])
+					return idLess(all[a], all[b])
 				}
-				return seq.Less(all[b], all[a])
+				return idLess(all[b], all[a])
 			})
 			for _, sz := range sizes {
 				for pi, sr := range []*fracmanager.Searcher{s.pager, s.searcher} {
@@ -1596,6 +1631,43 @@ func checkStore(s *sysStore, k int, have map[int]bool, crossFraction bool, stage
 					if got := qpr.IDs.IDs(); fmtIDs(got) != fmtIDs(exp) {
 						return &sysViolation{"page-wrong", fmt.Sprintf("%s: page of size %d asc=%v (fractions per iteration: %s) lists %s, expected %s",
 							stage, sz, asc, []string{"1", "all"}[pi], fmtIDs(got), fmtIDs(exp))}
+					}
+				}
+			}
+		}
+	}
+	// fetch WITH the hints of a wide search: every listed id is fetched from the fraction the search named
+	{
+		ast, err := parser.ParseQuery("service:s0 or service:s1 or service:s2", seq.TestMapping)
+		if err != nil {
+			return &sysViolation{"harness", "cannot parse query: " + err.Error()}
+		}
+		for _, sr := range []*fracmanager.Searcher{s.pager, s.searcher} {
+			qpr, err := sr.SearchDocs(ctx, fracs, processor.SearchParams{AST: ast, From: 0, To: seq.MID(math.MaxInt64), Limit: 100000, Order: seq.DocsOrderDesc})
+			if err != nil {
+				return &sysViolation{"search-error", fmt.Sprintf("%s: wide search: %v", stage, err)}
+			}
+			if len(qpr.IDs) == 0 {
+				continue
+			}
+			byID := map[seq.ID]int{}
+			for i := 0; i < k; i++ {
+				byID[sysDoc(i).id()] = i
+			}
+			for _, ft := range []*fracmanager.Fetcher{s.fetch1, s.fetchN} {
+				got, err := ft.FetchDocs(ctx, fracs, qpr.IDs)
+				if err != nil {
+					return &sysViolation{"fetch-error", fmt.Sprintf("%s: fetch with the hints of the search: %v", stage, err)}
+				}
+				for j, src := range qpr.IDs {
+					i, ok := byID[src.ID]
+					if !ok {
+						return &sysViolation{"listing-wrong", fmt.Sprintf("%s: search lists unknown id %s", stage, fmtID(src.ID))}
+					}
+					d := sysDoc(i)
+					if exp := payload(d.doc, d.size); !bytes.Equal(got[j], exp) {
+						return &sysViolation{"fetch-with-hint-fails", fmt.Sprintf("%s: document %d (%s), listed with hint %q, fetched with that hint returned %q, expected %q",
+							stage, i, fmtID(src.ID), src.Hint, got[j], exp)}
 					}
 				}
 			}
@@ -1683,6 +1755,10 @@ func checkStore(s *sysStore, k int, have map[int]bool, crossFraction bool, stage
 // runSys executes one history on a real store; returns nil when every check passed
 func runSys(c sysCase) *sysViolation {
 	sysFatEvery = 0
+	sysRTBase = 0
+	if c.rt {
+		sysRTBase = uint64(time.Now().UnixMilli())
+	}
 	if c.long {
 		sysFatEvery = c.fat
 		old := conf.IndexWorkers
@@ -2020,7 +2096,7 @@ func main() {
 		for _, l := range lines {
 			f := strings.Fields(l)
 			switch {
-			case len(f) > 0 && (f[0] == "sys" || f[0] == "sysl"):
+			case len(f) > 0 && (f[0] == "sys" || f[0] == "sysl" || f[0] == "sysr"):
 				if c, err := parseSys(l); err == nil {
 					sysCases = append(sysCases, c)
 					sysTags = append(sysTags, []string{"replay", "repeat"})
@@ -2090,6 +2166,10 @@ func main() {
 			// a repeat crosses a rotation and later fractions hold documents of their own: fetch of all delivered ids at once
 			{k: 8, ops: []string{"B0.1.2", "S", "B0.1.2.3", "S", "B4.5", "S", "B6", "R", "B7"}},
 			{k: 6, ops: []string{"B0.1", "S", "B0.1", "S", "B2", "S", "B3.4.5"}},
+			// real-time ids: same-millisecond pairs re-delivered across a rotation; late deliveries into the next fraction
+			{k: 6, rt: true, ops: []string{"B0.1", "S", "B0.1.2.3.4.5", "S", "R"}},
+			{k: 8, rt: true, ops: []string{"B0.1.4.5", "S", "B0.1.2.3.6", "S", "B7.4", "R", "S"}},
+			{k: 6, rt: true, ops: []string{"B4.5.0", "B0.1", "S", "B4.5.1.2", "S", "R", "B3.2", "S"}},
 			// two writers at once: a bulk and a partially overlapping repeat of other size, docs and meta order inverted if
 			// the writer lets it happen; then a restart of the still active fraction and a fetch of everything
 			{k: 6, ops: []string{"B5", "W0.1:0.2.3.4", "R", "S"}},
@@ -2122,6 +2202,10 @@ func main() {
 		r := rng.Fork()
 		for i := 0; i < o.Pick(250, 1500); i++ {
 			c, tags := genSys(r, 10)
+			if i%4 == 3 {
+				c.rt = true
+				tags = append(tags, "ids=real-time")
+			}
 			sysCases = append(sysCases, c)
 			sysTags = append(sysTags, append(tags, "gen=random"))
 		}
